@@ -143,6 +143,24 @@ Proof.
     remember (10 ^ Z.of_nat k) as P. nia.
 Qed.
 
+(** a space of the layout is Go's [time.skip] (a run of spaces, the space literals after it consumed
+    with it): a successful parse under [Lit 32 :: r] is a successful parse under [r] of some text *)
+Lemma parse_tokens_space_step : forall r s y m d res,
+  parse_tokens (Lit 32%N :: r) s y m d = Some res -> exists s', parse_tokens r s' y m d = Some res.
+Proof.
+  intros r s y m d res H.
+  assert (Hr : drop_space_lits r = r \/ exists r', r = Lit 32%N :: r').
+  { destruct r as [|[| | |c] r']; try (left; reflexivity).
+    destruct (N.eqb_spec c 32) as [->|Hc]; [right; eexists; reflexivity|left].
+    destruct c as [|p]; [reflexivity|]. do 6 (try (destruct p as [p|p|]; try reflexivity)).
+    exfalso; apply Hc; reflexivity. }
+  cbn [parse_tokens] in H. change (32 =? 32)%N with true in H. cbv iota in H.
+  destruct Hr as [E|[r' ->]].
+  - rewrite E in H. destruct s as [|c s0]; [exists []; exact H|].
+    destruct (c =? 32)%N; [|discriminate]. eexists; exact H.
+  - exists s. cbn [parse_tokens]. change (32 =? 32)%N with true. cbv iota. exact H.
+Qed.
+
 Lemma parse_tokens_valid : forall toks s y m d y' m' d',
   0 <= y <= 9999 -> 1 <= m <= 12 ->
   parse_tokens toks s y m d = Some (y', m', d') -> 0 <= y' <= 9999 /\ 1 <= m' <= 12.
@@ -159,8 +177,10 @@ Proof.
     + destruct (take_digits 2 s 0) as [[v s1]|] eqn:E; [|discriminate].
       destruct ((0 <=? v) && (v <=? 31))%bool; [|discriminate].
       eapply IH; [| |exact H]; lia.
-    + destruct s as [|c' s1]; [discriminate|]. destruct (c =? c')%N; [|discriminate].
-      eapply IH; [| |exact H]; lia.
+    + revert H. destruct (N.eqb_spec c 32) as [->|Hc]; intros H.
+      * apply parse_tokens_space_step in H. destruct H as [s1 H]. eapply IH; [| |exact H]; lia.
+      * destruct s as [|c' s1]; [discriminate|]. destruct (c =? c')%N; [|discriminate].
+        eapply IH; [| |exact H]; lia.
 Qed.
 
 Theorem parse_date_valid : forall toks s c, parse_date toks s = Some c -> valid_civil c.
